@@ -545,6 +545,14 @@ impl ElementRaw {
 
     /// perform a deep copy of an element, but keep only those sub elements etc, which are compatible with `target_version`
     fn deep_copy(&self, target_version: AutosarVersion) -> Result<Element, AutosarDataError> {
+        // an element whose type has a SHORT-NAME in the target version, but which has none itself
+        // (its type is not named in the version it was created in), is not valid in the target version
+        if self.elemtype.is_named_in_version(target_version) && self.item_name().is_none() {
+            return Err(AutosarDataError::VersionIncompatibleData {
+                version: target_version,
+            });
+        }
+
         let copy_wrapped = ElementRaw {
             elemname: self.elemname,
             elemtype: self.elemtype,
